@@ -26,7 +26,8 @@ RULE = ("Hypothesis draws series (10 classes, n 5..200) x gap pattern (>=2 valid
         "the -2..1.0 grid iff lc > 0.5, else 0..3.0 (NaN included). Non-trivial: grid != arange(-2,2) or gaps or n not in "
         "{5,10}; distinct by content hash. Series whose reference V-curve is not finite or not resolvable are counted "
         "and only held to the self-consistency oracles. "
-        " Added after the fourth seeded round: The lc path is also run with nodata values outside int16 (65535, NaN, fractions) on gap-free series holding the wrapped values.")
+        " Added after the fourth seeded round: The lc path is also run with nodata values outside int16 (65535, NaN, fractions) on gap-free series holding the wrapped values. "
+        " Added after the fifth seeded round: Generic 'history' sub-check for whitsvc.")
 ASSUME = ["LAPACK banded Cholesky / LU as reference solvers", "selection ties accepted within the calibrated tolerance (DESIGN 2.5)"]
 
 
